@@ -53,7 +53,7 @@ class IsPrivate(Contract):
         return VBool(fresh("is_private", BoolS))
 
     def ensures(self, E, old, st, a, result):
-        n = a["attr_name"].e
+        n = a["attr_name"].e if isinstance(a["attr_name"], VStr) else unbox_str(a["attr_name"].e)     # (a name taken from an opaque object: its text)
         if E.cur_contract is not self:
             return [("private-spec", z3.Implies(private_spec(n), result.e)), ("only-underscore-names-are-private", z3.Implies(result.e, z3.PrefixOf(z3.StringVal("_"), n)))]
         return [("every leading-underscore name that is not of dunder form, and every reserved dunder name, is private", z3.Implies(private_spec(n), result.e)),
